@@ -8,6 +8,7 @@
 import Rl2tp.Proofs.Sim2
 import Rl2tp.Proofs.RevealTotal
 import Rl2tp.Proofs.Checked
+import Rl2tp.Proofs.GenGuards
 namespace Rl2tp.C02
 
 /-- every request issued while decoding a message has its precondition satisfied -/
@@ -155,5 +156,17 @@ example (o : Opts) (b : Bytes) (f : Fault) : (decode o : M (Checked Poison) (Lis
 /-- the wrapper does police: an unchecked 2-octet read with one octet left is a fault, although `Poison` itself would
     have answered 0xA5A5 -/
 example : (Rdr.u16 (⟨⟨[7], 0⟩⟩ : Checked Poison)).isOk = false ∧ (Rdr.u16 (⟨[7], 0⟩ : Poison)).isOk = true := by decide
+
+/-! ### guards and sizes as the source has them now (re-read by bin/gentables on every run) -/
+
+/-- for each kind whose first guard (`reader.len() < Self::LENGTH`) stands in front of unchecked reads in the *source as it
+    is now*, the least payload length that guard lets through is the model's: below it the model's decoder of the kind of
+    that name refuses the payload as incomplete, at it it does not — so the unchecked reads behind each guard are the
+    ones the model's theorem is about -/
+theorem source_unchecked_guards :
+    ∀ r ∈ Gen.typeConstants, r.2.2.2.1 = true →
+      (∀ n ∈ List.range r.2.2.1, GenGuards.refusedAsIncomplete (GenGuards.numberOf r.2.1) n = true) ∧
+      GenGuards.refusedAsIncomplete (GenGuards.numberOf r.2.1) r.2.2.1 = false :=
+  GenGuards.unchecked_guards_is_model
 
 end Rl2tp.C02
